@@ -906,6 +906,13 @@ CHECKS['C03']['note'] = CHECKS['C03']['note'] + (
     'be unchanged and no memory is shared with operator state; results that are views of x are listed, not violations) and memory '
     'layout and size (x and out Fortran-ordered or strided, 2-d spaces above the BLAS threshold, bitwise against C copies).')
 
+CHECKS['C02']['note'] = CHECKS['C02']['note'].replace('75 expected model/code branches', '165 expected model/code branches') + (
+    ' A large stream checks every size-dependent branch of npy_tensors.py on both sides of its threshold for each dtype class x '
+    'weighting kind x layout against NumPy reference sums (complex data with non-real inner products).')
+CHECKS['C11']['note'] = CHECKS['C11']['note'] + (
+    ' Resume strata also hand the state back in equal but separately built spaces, from a run on an equal but distinct operator, '
+    'and in float32.')
+
 NOT_YET = {}
 
 
